@@ -84,7 +84,7 @@ Definition goja_define (ext : bool) (existing : option ival) (d : pdesc) : optio
     | Some ev =>
         let ex := match ev with IProp p => p | IPlain v => mkVP v true true true false None None end in
         if negb (vp_c ex) && (is_true (d_cf d) || differs (d_en d) (vp_e ex)) then None
-        else if (vp_acc ex && isSome (d_val d)) || (negb (vp_acc ex) && (isSome getterObj || isSome setterObj))
+        else if (vp_acc ex && (isSome (d_val d) || isSome (d_wr d))) || (negb (vp_acc ex) && (isSome (d_get d) || isSome (d_set d)))
         then (if vp_c ex then Some ex else None)
         else if negb (vp_acc ex)
         then (if negb (vp_c ex) && negb (vp_w ex) &&
@@ -404,7 +404,11 @@ Definition d_defineIdx (a : darr) (idx : N) (d : pdesc) : iarr * bool :=
       let '(a1, ok) := if da_length a <=? idx then d_setLengthInt_chk a (idx + 1) else (a, true) in
       if negb ok then (ID a1, false) else
       match d_expand a1 idx with
-      | (ID a2, _) => (ID (d_put (d_cnt a2 1 (if is_vp prop then 1 else 0)) idx (Some prop)), true)
+      | (ID a2, _) =>
+          let oc := match dnth (da_values a2) idx with None => 1%Z | Some _ => 0%Z end in
+          let pv := ((match dnth (da_values a2) idx with Some (IProp _) => -1 | _ => 0 end) +
+                     (if is_vp prop then 1 else 0))%Z in
+          (ID (d_put (d_cnt a2 oc pv) idx (Some prop)), true)
       | (IS s, _) => (IS (sa_add s idx prop), true)
       end
   end.
@@ -421,7 +425,7 @@ Definition d_deleteIdx (a : darr) (idx : N) : darr * bool :=
 (* I : sparse storage (array_sparse.go) *)
 
 (* the slow path loop of _setLengthInt (array_sparse.go:38-51); [r] = items reversed.
-   [strict] = false is the code as written ([item.idx <= l] breaks); true is the repaired comparison *)
+   [strict] = true is the code after fix a4a2aa5 ([item.idx < l] breaks); false is the former [<=] *)
 Fixpoint sp_scan (strict : bool) (r : list (N * ival)) (l : N) (pvc : Z) : N * bool * Z :=
   match r with
   | [] => (l, true, pvc)
@@ -438,7 +442,7 @@ Definition sp_setLengthInt_gen (strict : bool) (s : sparr) (l : N) : sparr * boo
     if (l <=? sa_length s) && (0 <? sa_pvc s)%Z then sp_scan strict (rev (sa_items s)) l (sa_pvc s)
     else (l, true, sa_pvc s) in
   (mkSA (acut (sa_items s) l') l' pvc' (sa_lw s) (sa_base s), ret).
-Definition sp_setLengthInt := sp_setLengthInt_gen false.     (* array_sparse.go:33 as it is *)
+Definition sp_setLengthInt := sp_setLengthInt_gen true.      (* array_sparse.go:33 after a4a2aa5: [item.idx < l] *)
 
 Definition sp_setLengthInt_chk (s : sparr) (l : N) : sparr * bool :=
   if l =? sa_length s then (s, true) else if negb (sa_lw s) then (s, false) else sp_setLengthInt s l.
